@@ -140,14 +140,14 @@ Proof.
   { unfold bh_clen. destruct (ac_cl a), (t_clen t0); try apply keeps_refl.
     destruct (has_body t0); [unfold keeps; cbn; tauto|apply keeps_refl]. }
   destruct (bh_clen a t0) as [clh t1]. cbn [snd] in K1.
-  assert (K2 : forall conn t, keeps t (bh_conn cap lower conn clh t)).
-  { intros conn t2. unfold bh_conn.
+  assert (K2 : forall conn fc t, keeps t (bh_conn cap lower conn fc clh t)).
+  { intros conn fc t2. unfold bh_conn.
     assert (Ha : forall t h, keeps t (set_rh (t_rh t ++ [h]) t)) by (intros; unfold keeps; cbn; tauto).
     assert (Hk : forall t b, keeps t (set_chunked b t)) by (intros; unfold keeps; cbn; tauto).
     destruct (negb (t_v11 t2)).
-    - destruct (beqb conn _); [|apply keeps_scof]. destruct (negb (truthy clh)); [apply keeps_scof|apply Ha].
-    - set (t3 := if beqb conn _ then _ else t2).
-      assert (K3 : keeps t2 t3) by (subst t3; destruct (beqb conn _); [apply keeps_scof|apply keeps_refl]).
+    - destruct (beqb conn _ && negb fc); [|apply keeps_scof]. destruct (negb (truthy clh)); [apply keeps_scof|apply Ha].
+    - set (t3 := if beqb conn _ || fc then _ else t2).
+      assert (K3 : keeps t2 t3) by (subst t3; destruct (beqb conn _ || fc); [apply keeps_scof|apply keeps_refl]).
       destruct (negb (truthy clh)); auto.
       set (t4 := if has_body t3 then _ else t3).
       assert (K4 : keeps t3 t4).
